@@ -45,12 +45,13 @@ type scenario struct {
 	ResErr bool          // the action's own result is an error
 	// StopErr: once it has seen its stop signal the action winds down with an error of its own ("interrupted") instead
 	// of a cancelled / timeout kind: the runner must still report the timeout kind
-	StopErr bool
-	Parent string        // live | pre | at:<offset>
-	Cause  bool          // the parent context is ended with a recorded cause (context.WithCancelCause)
-	Nested int           // Parallelise: every action calls Parallelise itself over that many arguments
-	Wide   bool          // long argument list: delay bounding (every departure from the default schedule costs one deviation)
-	POff   time.Duration
+	StopErr     bool
+	Parent      string // live | pre | at:<offset>
+	StoreCancel bool   // family "store", parent "at…": it is the caller's cancel store that is cancelled at that instant, not the parent context
+	Cause       bool   // the parent context is ended with a recorded cause (context.WithCancelCause)
+	Nested      int    // Parallelise: every action calls Parallelise itself over that many arguments
+	Wide        bool   // long argument list: delay bounding (every departure from the default schedule costs one deviation)
+	POff        time.Duration
 	// parallelise
 	Outcomes []bool // per argument: true = error
 	// cancel store
@@ -61,8 +62,8 @@ type scenario struct {
 type world struct {
 	x *gosim.Exec
 	// runner scenarios (all instants are relative to t0, the moment the runner was called)
-	t0    time.Time
-	armed time.Time // stop family: when the runner's own timer was armed
+	t0          time.Time
+	armed       time.Time // stop family: when the runner's own timer was armed
 	sawSignal   bool
 	actionDone  bool
 	actionDoneT time.Duration
@@ -346,6 +347,11 @@ func bodyCtx(x *gosim.Exec, w *world, sc scenario) {
 		x.Go("canceller", 0, func() {
 			<-started
 			time.Sleep(time.Until(w.t0.Add(T + sc.POff)))
+			if sc.StoreCancel {
+				x.Gate(0, "store.Cancel()")
+				store.Cancel() // the owner of the cancel store stops everything registered in it, the runner included
+				return
+			}
 			x.Gate(0, "parent cancel()")
 			cancelParent()
 		})
@@ -507,7 +513,7 @@ func bodyCancelStore(x *gosim.Exec, w *world, sc scenario) {
 var cancelOf = map[*gosim.Thread]int{}
 
 func (w *world) setCancel(id int) { cancelOf[w.x.Current()] = id }
-func (w *world) clearCancel()      { delete(cancelOf, w.x.Current()) }
+func (w *world) clearCancel()     { delete(cancelOf, w.x.Current()) }
 func (w *world) currentCancel() int {
 	if id, ok := cancelOf[w.x.Current()]; ok {
 		return id
@@ -557,6 +563,19 @@ func scenarios() []scenario {
 			sc.Name += "/interrupted-on-stop"
 			sc.StopErr = true
 			out = append(out, sc)
+		}
+	}
+	// the caller's cancel store cancelled while the runner is at work (one millisecond before / at / after the deadline)
+	for _, sc := range append([]scenario(nil), out...) {
+		if sc.Family == "store" && strings.HasPrefix(sc.Parent, "at") && sc.Action != "deaf" && !sc.StopErr {
+			sc.Name += "/store-cancelled-instead-of-the-parent"
+			sc.StoreCancel = true
+			out = append(out, sc)
+			if !sc.ResErr { // ... and with an action that answers its stop signal with an error of its own
+				sc.Name += "/interrupted-on-stop"
+				sc.StopErr = true
+				out = append(out, sc)
+			}
 		}
 	}
 	// the parent ended with a recorded cause: what the runner reports is still of the cancelled / timeout kind
